@@ -14,15 +14,12 @@ var notApplicable = map[string]string{
 // notYet lists properties whose harness is not finished; they are not claimed.
 // wip lists harnesses that are still being built: their checks can be run by hand but are
 // not registered in MANIFEST.json yet.
-var wip = map[string]bool{"federation": true, "dispatch": true, "balance": true}
+var wip = map[string]bool{"dispatch": true}
 
 var notYet = map[string]string{
 
-	"C05": "keep-balance harness not finished yet", "C06": "keep-balance harness not finished yet",
 	"C14": "dispatcher harness not finished yet",
-	"C15": "dispatcher harness not finished yet", "C16": "dispatcher harness not finished yet", "C17": "copier harness not finished yet",
-	"C18": "federation harness not finished yet", "C19": "federation harness not finished yet", "C20": "federation harness not finished yet",
-}
+	"C15": "dispatcher harness not finished yet", "C16": "dispatcher harness not finished yet"}
 
 func writeManifest() {
 	type lvl struct {
@@ -50,7 +47,7 @@ func writeManifest() {
 	serves := map[string][]string{}
 	sort.Slice(props, func(i, j int) bool { return props[i].ID < props[j].ID })
 	for _, p := range props {
-		if wip[p.Harness] {
+		if wip[p.Harness] || p.Sub {
 			continue
 		}
 		claimed[p.ID] = true
